@@ -93,6 +93,25 @@ def run_case(case):
                     k = int(np.nonzero(a != b)[0][0])
                     vs.append({"clause": "'solve_and_simulate' returns the same frame as solve then 'simulate'", "detail": f"column {c} row {k}: {a[k]} vs {b[k]}"})
                     break
+        # second call on the same function object after changing a value *in place* in the same params dict
+        if not vs:
+            pd = params_impl(info["P"])
+            sas = info["fns"].solve_and_simulate
+            _ = sas(pd, initial_states=init_impl(mj, info["init"]), seed=info["sim_seed"])
+            new_beta = 0.25 if float(pd["beta"]) != 0.25 else 0.75
+            pd["beta"] = new_beta
+            df3 = sas(pd, initial_states=init_impl(mj, info["init"]), seed=info["sim_seed"])
+            V3 = info["fns"].solve(pd)
+            df4 = info["fns"].simulate(pd, initial_states=init_impl(mj, info["init"]), vf_arr_list=V3, seed=info["sim_seed"])
+            for c in df3.columns:
+                a, b = np.asarray(df3[c], dtype=float), np.asarray(df4[c], dtype=float)
+                cells += len(a)
+                if not close_floats(a, b):
+                    k = int(np.nonzero(~np.isclose(a, b, rtol=1e-12, atol=1e-12))[0][0])
+                    vs.append({"clause": "'solve_and_simulate' returns the same frame as solve then 'simulate' (second call, params dict changed in place)",
+                               "detail": f"beta changed in place to {new_beta}: column {c} row {k}: {a[k]} vs {b[k]}"})
+                    break
+            out["hist"]["in_place_params_change"] = 1
     except Exception as e:  # noqa: BLE001
         from common import impl_site
 
